@@ -64,7 +64,7 @@ func propFilter(spec string) (id string, accept func(class string) bool) {
 	if i := strings.Index(spec, "("); i > 0 && strings.HasSuffix(spec, ")") {
 		id = spec[:i]
 		set := map[string]bool{}
-		for _, c := range strings.Split(spec[i+1:len(spec)-1], "|") {
+		for _, c := range strings.FieldsFunc(spec[i+1:len(spec)-1], func(r rune) bool { return r == '|' || r == ',' }) {
 			set[strings.TrimSpace(c)] = true
 		}
 		return id, func(class string) bool {
@@ -187,10 +187,14 @@ func cmdCheck(prop, tier string) int {
 	if tier == "thorough" {
 		s.agree = 2
 	}
-	evPath := filepath.Join(verifRoot(), "evidence", prop+".json")
+	outRoot := verifRoot()
+	if o := os.Getenv("VERIF_OUT"); o != "" {
+		outRoot = o
+	}
+	evPath := filepath.Join(outRoot, "evidence", prop+".json")
 	os.MkdirAll(filepath.Dir(evPath), 0o755)
 	os.Remove(evPath)
-	replayDir := filepath.Join(verifRoot(), "replays", prop)
+	replayDir := filepath.Join(outRoot, "replays", prop)
 	os.RemoveAll(replayDir)
 
 	fatal := func(msg string) int {
